@@ -5,7 +5,7 @@ Import ListNotations.
 From Verif Require Import Common.Base Model.SampleBuilder Model.SampleBuilderSpec
   Proofs.SampleBuilderArith Proofs.SampleBuilderIter Proofs.SampleBuilderMap Proofs.SampleBuilder
   Proofs.SampleBuilderScan Proofs.SampleBuilderBuild Proofs.SampleBuilderFifo Proofs.SampleBuilderTop
-  Proofs.SampleBuilderInside Proofs.SampleBuilderOrder Proofs.SampleBuilderOnce.
+  Proofs.SampleBuilderInside Proofs.SampleBuilderOrder Proofs.SampleBuilderOnce Proofs.SampleBuilderComplete.
 Open Scope N_scope.
 
 (* ---------- no model fault ---------- *)
@@ -237,4 +237,44 @@ Proof.
                 = [[wp 6 16 2000 3]]) by (vm_compute; reflexivity).
     intro H. destruct (H _ (or_introl eq_refl)) as (x & Hin & Hx).
     apply (in_map s_pkts) in Hin. rewrite E, Hx in Hin. cbn in Hin. intuition discriminate.
+Qed.
+
+(* ---------- completeness, in-order delivery: a stream that satisfies the premises ----------
+   four frames (3, 3, 3, 1 packets) across the sequence-number wrap, pushed in order with a
+   Pop after every Push *)
+Definition w_inorder_frames : list (list packet) :=
+  [[wp 0 65534 100 1; wp 1 65535 100 0; wp 2 0 100 2];
+   [wp 3 1 200 1; wp 4 2 200 0; wp 5 3 200 2];
+   [wp 6 4 300 1; wp 7 5 300 0; wp 8 6 300 2];
+   [wp 9 7 400 3]].
+Definition w_inorder_ops : list op := flat_map (fun p => [OPush p; OPop]) (concat w_inorder_frames).
+
+Lemma w_inorder_premises :
+  stream_ok fk_is_head fk_is_tail w_inorder_frames /\ delivers 0 w_inorder_frames w_inorder_ops /\
+  (forall f, In f w_inorder_frames -> N.of_nat (List.length f) <= c_maxLate (wcfg 50)) /\
+  (forall p, In p (concat w_inorder_frames) -> fk_unmarshal (p_payload p) <> None).
+Proof.
+  assert (Hp : pushed_of w_inorder_ops = concat w_inorder_frames) by reflexivity.
+  split; [|split; [|split]].
+  - unfold stream_ok. split; [|split; [|split; [|split]]].
+    + repeat (apply Forall_cons || apply Forall_nil); cbn [frame_ok];
+        (split; [reflexivity|]; split; [|split; [reflexivity|]]);
+        intros p Hin; cbn in Hin;
+        repeat match goal with H : _ \/ _ |- _ => destruct H as [<-|H] end; try contradiction;
+        try (split; reflexivity); reflexivity.
+    + cbn. repeat split; discriminate.
+    + exists 65534. split; [reflexivity|vm_compute; reflexivity].
+    + vm_compute. reflexivity.
+    + repeat constructor; cbn; intuition discriminate.
+  - split; [|split].
+    + rewrite Hp. apply Permutation.Permutation_refl.
+    + intros i j p Hi Hj. rewrite Hp in Hj.
+      assert (Hnd : NoDup (concat w_inorder_frames)).
+      { apply (NoDup_map_inv p_id). repeat constructor; cbn; intuition discriminate. }
+      pose proof (proj1 (NoDup_nth_error _) Hnd i j) as Hinj.
+      assert (i = j). { apply Hinj; [apply nth_error_Some; congruence|congruence]. }
+      subst. split; lia.
+    + intros o Ho. unfold w_inorder_ops in Ho. apply in_flat_map in Ho. destruct Ho as (p & _ & [<-|[<-|[]]]); discriminate.
+  - intros f Hf. cbn in Hf. repeat match goal with H : _ \/ _ |- _ => destruct H as [<-|H] end; try contradiction; cbn; lia.
+  - intros p Hin. cbn in Hin. repeat match goal with H : _ \/ _ |- _ => destruct H as [<-|H] end; try contradiction; discriminate.
 Qed.
